@@ -45,10 +45,12 @@ K_STR = _cs("str", ["v", "V", "w", ""])
 TS = _cs("ts", ["2020-01-01T00:00:00Z", "2020-01-01T00:00:00.000Z", "2021-01-01T00:00:00Z", "2022-06-01T12:00:00.5Z", "2022-06-01T12:00:00.500Z"])
 HEX = _cs("hex", ["61", "6162", "ff", "FF", "00"])
 BIN = _cs("bin", ["YQ==", "YWI=", "/w==", "AA=="])
-IP4 = _cs("str", ["1.2.3.4", "1.2.3.4/32", "1.2.3.5", "1.2.3.0/24", "1.2.3.4/24", "01.02.03.04", "10.0.0.1", "10.0.0.0/8", "1.2.3.4/99", "foo"])
+IP4 = _cs("str", ["1.2.3.4", "1.2.3.4/32", "1.2.3.5", "1.2.3.0/24", "1.2.3.4/24", "01.02.03.04", "10.0.0.1", "10.0.0.0/8", "1.2.3.4/99", "foo",
+                  # not IPv4 addresses / CIDR blocks in dotted-decimal notation, although lenient C-library parsers take them: plain strings
+                  "1.2.3", "1.2.0.3", "1.2.3.4 foo", "1.2.3.0/+24", "1.2.3.0/ 24", "1.2.3.0/2_4", "1.2.3.0/\u0662\u0664", "0x1.2.3.4", "1.2.3.4\n", "16909060"])
 IP4_LIKE = _cs("str", ["1.2.3.%", "1.2.3.4", "1.2.3.4/32", "%/24", "1.2.3._"])
 IP4_RE = _cs("str", ["^1\\.2", "1.2.3.4", "1.2.3.4/32", "/24$", "5$"])
-IP6 = _cs("str", ["1::1", "1:0:0:0:0:0:0:1", "1::1/128", "1:2:3:4:5:6:7:8", "1:2:3:4:5:6:7:8/112", "1:2:3:4:5:6:7:0/112", "0001:0000:0000:0000:0000:0000:0000:0001", "bar"])
+IP6 = _cs("str", ["1::1/ 128", "1::1/+128", "1:2:3:4:5:6:7:8/1_12", "1::1", "1:0:0:0:0:0:0:1", "1::1/128", "1:2:3:4:5:6:7:8", "1:2:3:4:5:6:7:8/112", "1:2:3:4:5:6:7:0/112", "0001:0000:0000:0000:0000:0000:0000:0001", "bar"])
 IP6_LIKE = _cs("str", ["1::%", "1::1", "1:0:0:0:0:0:0:1", "%/112"])
 IP6_RE = _cs("str", ["^1::", "1::1", "1:0:0:0:0:0:0:1", "/112$"])
 RK_KEY = _cs("str", ["HKLM\\Foo", "hklm\\foo", "HKLM\\FOO", "HKLM\\Bar", "ABd", "abc", "ABC"])
